@@ -163,6 +163,13 @@ func TestC04_NATExpiry(t *testing.T) {
 	p.Execute(t)
 }
 
+// C04's last clause under the default policy: an association is created only by an authenticated datagram with an
+// *allowed* destination, however the destination is written (shares the end-to-end executor of C05).
+func TestC04_Policy(t *testing.T) {
+	p := kit.Prop[C05E2E]{ID: "C04", Name: "Policy", Quick: 2000, Thorough: 200000, Gen: genC05E2E, Run: runC05UDP}
+	p.Execute(t)
+}
+
 func TestC16_Metrics(t *testing.T) {
 	o := uOpts{maxKeys: 6, maxOps: 20, manyClients: true}
 	p := kit.Prop[UCase]{ID: "C16", Name: "Metrics", Quick: 2400, Thorough: 300000, Gen: genUCase(o),
